@@ -168,6 +168,14 @@ func (n eqNode) mutants() []eqNode {
 		case string:
 			m.V = tv + "'"
 			add(m, "string leaf changed")
+			mc := cloneNode(n)
+			mc.V = strings.ToUpper(tv)
+			if tv != "" && mc.V != tv {
+				add(mc, "string leaf letter case changed")
+			}
+			mw := cloneNode(n)
+			mw.V = tv + " "
+			add(mw, "string leaf gained a trailing blank")
 		case float64:
 			m.V = tv + 0.25
 			add(m, "float leaf changed")
@@ -236,6 +244,12 @@ func (n eqNode) mutants() []eqNode {
 		m := cloneNode(n)
 		m.Kw += "2"
 		add(m, "Condition keyword changed")
+		mk := cloneNode(n)
+		mk.Kw = strings.ToUpper(n.Kw)
+		if mk.Kw == n.Kw {
+			mk.Kw = strings.ToLower(n.Kw)
+		}
+		add(mk, "Condition keyword letter case changed")
 		m2 := cloneNode(n)
 		m2.Op = n.Op%6 + 1
 		add(m2, "Condition operator changed")
